@@ -77,8 +77,9 @@ type rstmt struct {
 }
 
 type rcase struct {
-	val   rval  // classic
-	l, r  rexpr // condition-less
+	val   rval   // classic
+	vpath string // classic: the case value is this variable (holding val), not a literal
+	l, r  rexpr  // condition-less
 	op    string
 	body  []rstmt
 	quote string
@@ -149,6 +150,9 @@ func renderStmts(ss []rstmt, sb *strings.Builder) {
 					t := c.val.lit()
 					if c.val.kind == "str" && c.quote == "'" {
 						t = "'" + c.val.s + "'"
+					}
+					if c.vpath != "" {
+						t = c.vpath
 					}
 					sb.WriteString("case " + t + ":\n")
 					renderStmts(c.body, sb)
@@ -639,14 +643,27 @@ func (g *rgen) stmt(depth int) []rstmt {
 				if r.chance(1, 3) {
 					v = g.ints[k]
 				}
-				s.cases = append(s.cases, mk(rval{kind: "int", i: v}))
+				c := mk(rval{kind: "int", i: v})
+				if r.chance(1, 3) {
+					// variable case value
+					k2 := fmt.Sprintf("n%d", r.intn(4))
+					c.val, c.vpath = rval{kind: "int", i: g.ints[k2]}, "jso."+k2
+					g.count("switch case value from a variable")
+				}
+				s.cases = append(s.cases, c)
 			}
 		case 1:
 			k := fmt.Sprintf("s%d", r.intn(3))
 			s.subj = rexpr{path: "jso." + k, v: rval{kind: "str", s: g.strs[k]}}
 			for i, n := 0, 1+r.intn(4); i < n; i++ {
 				v := pick(r, []string{"alpha", "beta", "gamma", "x", "Hello", g.strs[k]})
-				s.cases = append(s.cases, mk(rval{kind: "str", s: v}))
+				c := mk(rval{kind: "str", s: v})
+				if r.chance(1, 3) {
+					k2 := fmt.Sprintf("s%d", r.intn(3))
+					c.val, c.vpath = rval{kind: "str", s: g.strs[k2]}, "jso."+k2
+					g.count("switch case value from a variable")
+				}
+				s.cases = append(s.cases, c)
 			}
 		default:
 			k := pick(r, []string{"t", "f"})
